@@ -15,14 +15,14 @@ def _fails(engine, case, oracle, stats):
     except Exception:
         return None
     v = res.get('violation')
-    if v and v['oracle'] == oracle:
+    if v and (v['oracle'], v.get('signature')) == oracle:
         return v
     return None
 
 
 def minimise(engine, case, violation, budget_s=90):
     t_end = time.time() + budget_s
-    oracle = violation['oracle']
+    oracle = (violation['oracle'], violation.get('signature'))
     stats = {'tests': 0}
     best = copy.deepcopy(case)
     best_v = violation
